@@ -13,10 +13,31 @@ theorem group_within_limits (cfg : EngineConfig) (blocks : List BShape) (g : Lis
     sumRows g ≤ cfg.MaxRowGroupRows ∧ sumSize g ≤ cfg.MaxRowGroupBytes :=
   group_within_limits_aux cfg blocks g hg h2
 
+/-- non-vacuity: with limits 10 rows / 1000 bytes, three blocks share key "k" and pair with the seed but only two fit cumulatively: a two-block group within both limits -/
+example :
+    let cfg : EngineConfig := { MaxRowGroupRows := 10, MaxRowGroupBytes := 1000 }
+    let blocks : List BShape := [⟨0, "k", 4, 10⟩, ⟨1, "k", 5, 10⟩, ⟨2, "k", 5, 10⟩, ⟨3, "j", 1, 1⟩]
+    let g : List BShape := [⟨0, "k", 4, 10⟩, ⟨1, "k", 5, 10⟩]
+    (g ∈ blockGroups cfg blocks ∧ 2 ≤ g.length) ∧
+    (sumRows g ≤ cfg.MaxRowGroupRows ∧ sumSize g ≤ cfg.MaxRowGroupBytes) ∧ sumRows g = 9 ∧ sumSize g = 20 := by
+  intro cfg blocks g
+  have h : g ∈ blockGroups cfg blocks ∧ 2 ≤ g.length := by decide
+  exact ⟨h, group_within_limits cfg blocks g h.1 h.2, by decide, by decide⟩
+
 /-- It combines only blocks with one merge key (one partition, one minmax key set). -/
 theorem group_same_key (cfg : EngineConfig) (blocks : List BShape) (g : List BShape)
     (hg : g ∈ blockGroups cfg blocks) : ∀ a ∈ g, ∀ b ∈ g, a.key = b.key :=
   group_same_key_aux cfg blocks g hg
+
+/-- non-vacuity: a three-block group collected across an interleaved block of another key -/
+example :
+    let cfg : EngineConfig := { MaxRowGroupRows := 20, MaxRowGroupBytes := 1000 }
+    let blocks : List BShape := [⟨0, "k", 4, 10⟩, ⟨1, "j", 5, 10⟩, ⟨2, "k", 5, 10⟩, ⟨3, "k", 6, 30⟩, ⟨4, "j", 30, 1⟩]
+    let g : List BShape := [⟨0, "k", 4, 10⟩, ⟨2, "k", 5, 10⟩, ⟨3, "k", 6, 30⟩]
+    g ∈ blockGroups cfg blocks ∧ (∀ a ∈ g, ∀ b ∈ g, a.key = b.key) := by
+  intro cfg blocks g
+  have h : g ∈ blockGroups cfg blocks := by decide
+  exact ⟨h, group_same_key cfg blocks g h⟩
 
 /-- The groups partition the blocks: nothing is dropped, nothing is duplicated (used by C11). -/
 theorem groups_partition (cfg : EngineConfig) (blocks : List BShape) :
@@ -34,6 +55,21 @@ theorem file_group_size (cfg : EngineConfig) (cands : List Cand) (g : List Cand)
     (hg : g ∈ fileGroups cfg cands) : 2 ≤ g.length ∧ sumTotal g ≤ cfg.MaxFileSize :=
   file_group_size_aux cfg cands g hg
 
+/-- non-vacuity: five candidates, MaxFileSize 100, at most 3 files per operation: file 1 is too large, file 3 has no mergeable pair, files 0, 2, 4 form the one group -/
+example :
+    let cfg : EngineConfig := { MaxRowGroupRows := 10, MaxRowGroupBytes := 1000, MaxFileSize := 100, MaxFilesToMergePerOperation := 3 }
+    let c0 : Cand := ⟨0, 40, [⟨0, "k", 4, 10⟩, ⟨1, "j", 9, 10⟩]⟩
+    let c1 : Cand := ⟨1, 70, [⟨2, "k", 5, 10⟩]⟩
+    let c2 : Cand := ⟨2, 50, [⟨3, "k", 5, 10⟩]⟩
+    let c3 : Cand := ⟨3, 5, [⟨4, "j", 2, 1⟩]⟩
+    let c4 : Cand := ⟨4, 5, [⟨5, "k", 1, 1⟩]⟩
+    [c0, c2, c4] ∈ fileGroups cfg [c0, c1, c2, c3, c4] ∧ fileGroups cfg [c0, c1, c2, c3, c4] = [[c0, c2, c4]] ∧
+    (2 ≤ [c0, c2, c4].length ∧ sumTotal [c0, c2, c4] ≤ cfg.MaxFileSize) := by
+  intro cfg c0 c1 c2 c3 c4
+  have e : fileGroups cfg [c0, c1, c2, c3, c4] = [[c0, c2, c4]] := by rfl
+  have h : [c0, c2, c4] ∈ fileGroups cfg [c0, c1, c2, c3, c4] := by rw [e]; exact .head _
+  exact ⟨h, e, file_group_size cfg _ _ h⟩
+
 /-- No candidate is used twice: the grouped files are (a permutation of) a sublist of the candidates. -/
 theorem file_groups_members (cfg : EngineConfig) (cands : List Cand) :
     ((fileGroups cfg cands).flatMap id).Sublist cands ∨
@@ -45,6 +81,17 @@ theorem within_generated (cfg : EngineConfig) (a b : BShape)
     (ha : InI64 (a.rows + b.rows)) (hb : InI64 (a.size + b.size)) :
     Gen.blocksWithinMergeLimits ⟨cfg⟩ ⟨a.rows, a.size⟩ ⟨b.rows, b.size⟩ = within cfg a b :=
   within_bridge_aux cfg a b ha hb
+
+/-- non-vacuity: two large blocks whose row and byte sums stay inside int64 (rows sum to exactly 2^63 - 1) -/
+example :
+    let cfg : EngineConfig := { MaxRowGroupRows := maxInt64, MaxRowGroupBytes := 1000 }
+    let a : BShape := ⟨0, "k", 4611686018427387904, 600⟩
+    let b : BShape := ⟨1, "k", 4611686018427387903, 500⟩
+    (InI64 (a.rows + b.rows) ∧ InI64 (a.size + b.size)) ∧
+    Gen.blocksWithinMergeLimits ⟨cfg⟩ ⟨a.rows, a.size⟩ ⟨b.rows, b.size⟩ = within cfg a b ∧ within cfg a b = false := by
+  intro cfg a b
+  have h : InI64 (a.rows + b.rows) ∧ InI64 (a.size + b.size) := by decide
+  exact ⟨h, within_generated cfg a b h.1 h.2, by decide⟩
 
 /-- Non-vacuity: three blocks that pair with the seed but only two fit cumulatively. -/
 example :
